@@ -12,7 +12,7 @@
 
    Domain: evo_dom / no_retyped_variant as in C08; no_keep_arg S: no declaration is both keep and is_arg -- finding F-13a:
    such a type takes `remaining - 2` bytes of the whole buffer once its known fields are read (C13_is_arg_refuted). *)
-From PVGen Require Import Gen GenKeep GenSpec EvoSpec KeepSpec Proofs.GenBase Proofs.KeepP Proofs.KeepSizeP Proofs.KeepTopP Proofs.KeepViewP Proofs.KeepRetP Proofs.KeepWtP Proofs.KeepMainP.
+From PVGen Require Import Gen GenKeep GenSpec EvoSpec KeepSpec Proofs.GenBase Proofs.KeepP Proofs.KeepSizeP Proofs.KeepTopP Proofs.KeepViewP Proofs.KeepRetP Proofs.KeepWtP Proofs.KeepMainP FullSpec Proofs.KeepFullP.
 From PV Require Import Proofs.HeaderP.
 Open Scope Z_scope.
 
@@ -80,7 +80,7 @@ Print Assumptions C13_retain_layout.
    written.  empty_elems_ok (KeepSpec.v, decidable): the declared element types of the EMPTY containers among the known
    fields have a wire type (reenc announces the declared element type; void elements cannot be declared in IDL).
 
-   FULL statement of the property's last clause (not proved, see NOTES.md): for every schema W that extends S,
+   The property's last clause is C13_full_reader / C13_retain below (gen-C).  It reads: for every schema W that extends S,
    view W T (reenc S T tv) = view W T tv up to the permitted default filling -- "a reader with the full schema recovers
    the original value".  What is proved towards it: the re-read tree is given in closed form (reenc), every ignored field
    is in it unchanged (C13_retain_unknown), and the known fields are the reader's own view re-encoded. *)
@@ -133,3 +133,52 @@ Theorem C13_is_arg_refuted :
     gen_decode_keep S p 40 T (mkS (flat ss) r0) = Err EInvalidData.
 Proof. exact keep_is_arg_refuted. Qed.
 Print Assumptions C13_is_arg_refuted.
+
+(* ---------- the last clause: a reader with the full schema recovers the original value (gen-C) ----------
+
+   W is ANY schema with S ⊑ W (FullSpec.sub_schema, decidable): same names and kinds, same typedefs; every field / variant
+   S declares is declared by W with the same id, type and IDL default (requiredness may differ); a declaration of S that
+   does not keep has no extra field / variant in W.  tv is what the writer put on the wire (any writer).  The reader's
+   own decode succeeded (viewk S .. = Ok g).  Then whatever the full-schema reader makes of the ORIGINAL message
+   (view W T tv = Ok gw) it makes of the RE-ENCODED one (reenc S T tv is, by C13_retain_partial, exactly the tree the
+   re-encoded bytes carry), up to [dfill W]: a struct field the reader S filled with its IDL default d travels as an
+   encoded d and comes back as fill_defaults W _ d (absent optional fields of d that have an IDL default themselves now
+   hold it -- the permitted round-trip difference of C02; nothing else differs).  Nested structs, container elements,
+   union payloads: by induction on the tree.  Repeated field ids are covered (the last occurrence wins on both sides).
+   Only this direction holds: when the full reader rejects the original (e.g. an EARLIER occurrence of a repeated id
+   is malformed for W) it may accept the re-encoded message, which carries the last occurrence only. *)
+Theorem C13_full_reader : forall S W p k c T tv g gw,
+  wf_schema S = true -> wf_schema W = true -> sub_schema S W = true ->
+  no_retyped_variant S T tv = true ->
+  viewk S p k c T tv = Ok g -> view W T tv = Ok gw ->
+  exists gw', view W T (reenc S T tv) = Ok gw' /\ dfill W T gw gw'.
+Proof. exact full_view. Qed.
+Print Assumptions C13_full_reader.
+
+(* when every IDL default of W is already filled (defaults_closed, decidable; all scalar defaults are) nothing differs *)
+Theorem C13_full_reader_exact : forall S W p k c T tv g gw,
+  wf_schema S = true -> wf_schema W = true -> sub_schema S W = true -> defaults_closed W = true ->
+  no_retyped_variant S T tv = true ->
+  viewk S p k c T tv = Ok g -> view W T tv = Ok gw ->
+  view W T (reenc S T tv) = Ok gw.
+Proof. exact full_view_exact. Qed.
+Print Assumptions C13_full_reader_exact.
+
+(* the whole property on bytes: decode with retention under S, emitted encode, then the decoder emitted for the full
+   schema W run on the re-encoded bytes returns what it returns on the original message (view W T tv, by C08_tolerant),
+   up to dfill, and stops at the end of the message.  The last two hypotheses put the re-encoded tree in the C08 domain
+   of the full reader (decidable on the closed form). *)
+Theorem C13_retain : forall S W p k T tv g gw,
+  wf_schema S = true -> wf_schema W = true -> sub_schema S W = true -> no_keep_arg S = true -> p <> PCompact ->
+  wt tv = true -> ttype_of tv = ttype_of_ty S T ->
+  evo_dom S T tv = true -> no_retyped_variant S T tv = true ->
+  forall c, w_pend c = None ->
+  viewk S p k c T tv = Ok g -> empty_elems_ok S T tv = true ->
+  view W T tv = Ok gw ->
+  evo_dom W T (reenc S T tv) = true -> no_retyped_variant W T (reenc S T tv) = true ->
+  exists b gw',
+    enc_ty S p k T g c = Ok (b, c) /\ dfill W T gw gw' /\
+    forall fuel r rcx, (vsize (reenc S T tv) <= fuel)%nat -> idle rcx ->
+      gen_decode W p fuel T (mkS (flat b ++ r) rcx) = Ok (gw', mkS r rcx).
+Proof. exact keep_retain_full. Qed.
+Print Assumptions C13_retain.
